@@ -8,13 +8,14 @@ ALL = [f"C{i:02d}" for i in range(1, 21)]
 
 # pid -> (technique, level text, level note, design ref)
 RUNNER_NOTE = ("Trusted: Coq kernel + vm_compute; hand-written model Runner.v of state.py/retry_helpers.py/runner/*.py (tied to /repo "
-               "only by the correspondence run on generated scripts); scripted-world Python driver, virtual clock, hand-driven "
-               "coroutines; assumptions: time passes only in operation and sleeper, decision callbacks do not raise, "
-               "attempt_timeout_s unused, 1/64 s time grid.")
+               "by the correspondence run on generated scripts; its handle_failure additionally proved equal to the translated "
+               "_RetryState._handle_failure: pyir_failure.py + PyIRF.v are trusted for that); scripted-world Python driver, virtual "
+               "clock, hand-driven coroutines, a real asyncio loop on virtual time under attempt_timeout_s; assumptions: time passes "
+               "only in operation and sleeper, decision callbacks do not raise, 1/64 s time grid.")
 
 CHECKS = {
     "C01": (
-        "Coq proof (loop invariants by induction over the retry loop via a characterisation of one iteration) tied by in-Coq trace correspondence (projection: invocations)",
+        "Coq proof (loop invariants by induction over the retry loop via a characterisation of one iteration) tied by in-Coq trace correspondence (projection: invocations); the decision function _RetryState._handle_failure is additionally tied by translation (PyIRF.v; the translated function proved equal to Runner.handle_failure on every run)",
         "Theorems C01_* (invocations <= max_attempts, no invocation after a non-retryable class, per-class and UNKNOWN retry "
         "caps, fresh counters per call) hold for all configurations, outcome/timing/abort/handler environments and call "
         "sequences of the Gallina model of the retry loop; the model's invocation trace is compared inside Coq with /repo's on "
@@ -31,7 +32,7 @@ CHECKS = {
         RUNNER_NOTE, "DESIGN.md §4 C02",
     ),
     "C03": (
-        "Coq proof (iff characterisation of one loop iteration by a pure verdict function; budget/sleep iff; stop-reason soundness) tied by in-Coq trace correspondence (projection: invocations, budget, retry/terminal events, handler, sleeps, polls)",
+        "Coq proof (iff characterisation of one loop iteration by a pure verdict function; budget/sleep iff; stop-reason soundness) tied by in-Coq trace correspondence (projection: invocations, budget, retry/terminal events, handler, sleeps, polls); the decision function _RetryState._handle_failure is additionally tied by translation (PyIRF.v; the translated function proved equal to Runner.handle_failure on every run)",
         "Theorems C03_* (continue iff permitted; budget asked iff static conditions; sleep iff; no backoff after the last "
         "permitted attempt; stop reason sound) for all configurations/environments of the Gallina model; tie as C01 with the "
         "C03 projection; the Python oracle restates the iff per failed attempt on every observed trace.",
@@ -103,7 +104,7 @@ CHECKS = {
         RUNNER_NOTE, "DESIGN.md §4 C04",
     ),
     "C05": (
-        "Coq proof (strategy calls of a pass as a function of its verdict; data-flow of the delay through the complete event list: Forall (carries d)) tied by in-Coq trace correspondence (projection: strategy calls with all arguments, delays seen by handler/before_sleep/sleeper/retry events, next_sleep_s)",
+        "Coq proof (strategy calls of a pass as a function of its verdict; data-flow of the delay through the complete event list: Forall (carries d)) tied by in-Coq trace correspondence (projection: strategy calls with all arguments, delays seen by handler/before_sleep/sleeper/retry events, next_sleep_s); the decision function _RetryState._handle_failure is additionally tied by translation (PyIRF.v; the translated function proved equal to Runner.handle_failure on every run)",
         "Theorems C05_* (per-class strategy else default; at most one strategy call per failed attempt, exactly one per granted "
         "retry; arguments = attempt, classification incl. retry_after_s, previous delay, remaining time, cause; legacy signature; "
         "delay = min(max(0, finite(raw)), remaining); the same delay reaches handler, before_sleep, sleeper, retry/scheduled "
